@@ -735,6 +735,374 @@ theorem handle_site_behaves_as_written (ns : List Node) (req : Req) (hh : nodesN
 
 example : evalNodes wHandleSite false 2 = some 201 ∧ evalNodes wHandleSite false 3 = some 206 := by decide
 
+/-! ### … also with `handle_path` and `error`: the path is threaded through the reading -/
+
+def nodeMatchesP : Option Nat → Nat → Bool
+  | none, _ => true
+  | some q, p => if q = 100 then [2, 5].contains p else [q].contains p
+
+def enterPath (q : Option Nat) (p : Nat) : Nat := if q = some 100 then stripPath p else p
+
+mutual
+def evalNodeP : Node → Bool → Nat → Option Nat × Bool × Nat
+  | .respond st, taken, p => (some st, taken, p)
+  | .handle q body, taken, p =>
+    if taken || !nodeMatchesP q p then (none, taken, p)
+    else ((evalNodesP body false (enterPath q p)).1, true, (evalNodesP body false (enterPath q p)).2)
+def evalNodesP : List Node → Bool → Nat → Option Nat × Nat
+  | [], _, p => (none, p)
+  | n :: ns, taken, p =>
+    match evalNodeP n taken p with
+    | (some st, _, p') => (some st, p')
+    | (none, tk, p') => evalNodesP ns tk p'
+end
+
+mutual
+def nodesPlain : List Node → Bool
+  | [] => true
+  | n :: ns => nodePlain n && nodesPlain ns
+def nodePlain : Node → Bool
+  | .respond st => st != 103 && st != 1000
+  | .handle _ body => nodesPlain body
+end
+
+/-- what an answer `st` of the as-written reading means for the chain: statuses from 1000 on are
+    the `error` directive -/
+def Answered (st : Nat) (out : Out) (t : Trace) : Prop :=
+  if st ≥ 1000 then ∃ r'', out = .err t (st - 1000) r'' else out = .done t (some st)
+
+def ExtP (r r' : Req) (p' lo hi g : Nat) : Prop :=
+  r'.path = p' ∧ (∀ x ∈ r.groups, x ∈ r'.groups) ∧
+    (∀ x ∈ r'.groups, x ∈ r.groups ∨ (lo < x ∧ x ≤ hi) ∨ (x = g ∧ g ≠ 0))
+
+def OutcomeP (res : Option Nat) (p' : Nat) (out : Out) (k : K) (r : Req) (t : Trace) (lo hi g : Nat)
+    (P : Req → Prop) : Prop :=
+  match res with
+  | some st => Answered st out t
+  | none => ∃ r', out = k r' t ∧ ExtP r r' p' lo hi g ∧ P r'
+
+theorem ExtP.refl (r : Req) (lo hi g : Nat) : ExtP r r r.path lo hi g :=
+  ⟨rfl, fun _ h => h, fun _ h => Or.inl h⟩
+
+theorem strip_route_run (X : List Route) (k : K) (m : Req) (t : Trace) :
+    runRoutes (Route.mk 0 [] [Handler.strip] false :: X) k m t
+      = runRoutes X k { m with path := stripPath m.path, uri := requestLineOf (stripPath m.path) } t := by
+  simp [runRoutes, runRoute, anyMatch, groupDone, markGroup, runHandlers, runHandler]
+
+/-- the request inside a block: group marked, prefix stripped by `handle_path` -/
+def enterReq (q : Option Nat) (g : Nat) (r : Req) : Req :=
+  let m := markGroup g r
+  { m with path := enterPath q r.path, uri := if q = some 100 then requestLineOf (stripPath r.path) else m.uri }
+
+mutual
+theorem adaptNode_semP : ∀ (n : Node) (c g : Nat) (taken : Bool) (k : K) (r : Req) (t : Trace),
+    nodePlain n = true →
+    Disj r.groups c (adaptNode n c).2 →
+    (g ≠ 0 → (adaptNode n c).2 < g ∧ (taken = true ↔ g ∈ r.groups)) →
+    (g = 0 → n.isHandle = true → taken = false) →
+    OutcomeP (evalNodeP n taken r.path).1 (evalNodeP n taken r.path).2.2
+      (runRoute (if n.isHandle then (adaptNode n c).1.withGroup g else (adaptNode n c).1) k r t) k r t
+      c (adaptNode n c).2 g
+      (fun r' => g ≠ 0 → ((evalNodeP n taken r.path).2.1 = true ↔ g ∈ r'.groups))
+  | .respond st, c, g, taken, k, r, t, hh, hd, hg, h0 => by
+    simp only [nodePlain, bne_iff_ne, ne_eq, Bool.and_eq_true] at hh
+    by_cases hlt : st ≥ 1000
+    · have h1 : st - 1000 ≠ 103 ∨ True := Or.inr trivial
+      simp [adaptNode, Node.isHandle, evalNodeP, OutcomeP, Answered, runRoute, anyMatch, groupDone,
+        runHandlers, runHandler, raiseStatus, Src.resolve, hlt]
+    · simp [adaptNode, Node.isHandle, evalNodeP, OutcomeP, Answered, runRoute, anyMatch, groupDone,
+        runHandlers, runHandler, answerStep, Src.resolve, hh.1, hlt]
+  | .handle q body, c, g, taken, k, r, t, hh, hd, hg, h0 => by
+    simp only [nodePlain] at hh
+    have hfb := adaptNodes_fresh body c
+    have ihb := adaptNodes_semP body c
+    simp only [adaptNode, Node.isHandle, if_true, Route.withGroup] at hd hg ⊢
+    generalize hb : adaptNodes body c = resb at hd hg hfb ihb ⊢
+    obtain ⟨rsb, cb⟩ := resb
+    simp only at hd hg hfb ihb ⊢
+    have hdg := drawGroups_bounds (body.filter Node.isHandle).length cb
+    generalize hdr : drawGroups (body.filter Node.isHandle).length cb = dg at hd hg hdg ⊢
+    obtain ⟨gb, c2⟩ := dg
+    simp only at hd hg hdg ⊢
+    have hm : anyMatch (handleSets q) r = .ok (nodeMatchesP q r.path) := by
+      cases q with
+      | none => simp [handleSets, anyMatch, nodeMatchesP]
+      | some v =>
+        by_cases hv : v = 100
+        · subst hv
+          simp only [handleSets, if_true, anyMatch, List.isEmpty_cons, Bool.false_eq_true, if_false, evalAny,
+            evalSet, evalMatcher, nodeMatchesP, Req.get]
+          cases ([2, 5].contains r.path) <;> rfl
+        · simp only [handleSets, hv, if_false, anyMatch, List.isEmpty_cons, Bool.false_eq_true, evalAny, evalSet,
+            evalMatcher, nodeMatchesP, Req.get]
+          cases ([v].contains r.path) <;> rfl
+    simp only [evalNodeP, runRoute, hm]
+    cases hmt : nodeMatchesP q r.path with
+    | false =>
+      simp only [Bool.not_false, Bool.or_true, if_true, OutcomeP]
+      exact ⟨r, rfl, ExtP.refl _ _ _ _, fun hne => (hg hne).2⟩
+    | true =>
+      simp only [Bool.not_true, Bool.or_false]
+      cases htk : taken with
+      | true =>
+        have hgne : g ≠ 0 := fun h => by have := h0 h rfl; rw [htk] at this; cases this
+        have hin : g ∈ r.groups := ((hg hgne).2).mp htk
+        have hgd : groupDone g r = true := by simp [groupDone, hgne, hin]
+        simp only [if_true, hgd, OutcomeP]
+        exact ⟨r, rfl, ExtP.refl _ _ _ _, fun _ => by first | exact iff_of_true rfl hin | exact iff_of_true trivial hin | simpa using hin⟩
+      | false =>
+        have hnotin : g ≠ 0 → g ∉ r.groups := fun hne hin => by
+          have := ((hg hne).2).mpr hin; rw [htk] at this; cases this
+        have hgd : groupDone g r = false := by
+          by_cases hne : g = 0
+          · simp [groupDone, hne]
+          · simp [groupDone, hnotin hne]
+        simp only [Bool.false_eq_true, if_false, hgd, runHandlers]
+        rw [runHandler_sub_without_errors]
+        -- the request inside the block: group marked, prefix stripped by handle_path
+        let rin : Req := enterReq q g r
+        have hinside : runRoutes (stripRoutes q ++ consolidate (setGroups gb body rsb)) k (markGroup g r) t
+            = runRoutes (setGroups gb body rsb) k rin t := by
+          have hmp : (markGroup g r).path = r.path := by unfold markGroup; split <;> rfl
+          by_cases hq : q = some 100
+          · subst hq
+            simp only [stripRoutes, List.cons_append, List.nil_append]
+            rw [strip_route_run, consolidate_preserves_behaviour]
+            simp only [rin, enterReq, enterPath, if_true, hmp]
+          · have hs : stripRoutes q = [] := by
+              unfold stripRoutes; split
+              · exact absurd rfl hq
+              · rfl
+            rw [hs, List.nil_append, consolidate_preserves_behaviour]
+            have : rin = markGroup g r := by
+              simp only [rin, enterReq, enterPath, hq, if_false]
+              cases hmg : markGroup g r
+              simp [hmg] at hmp
+              simp [hmp]
+            rw [this]
+        rw [hinside]
+        have hring : rin.groups = (markGroup g r).groups := rfl
+        have hcb : cb < c2 := hdg.1
+        have hdisj1 : Disj rin.groups c cb := by
+          rw [hring]
+          intro x hx
+          unfold markGroup at hx
+          split at hx
+          · rename_i hne
+            simp only [List.mem_cons] at hx
+            rcases hx with hx | hx
+            · right; have := (hg (by simpa using hne)).1; omega
+            · rcases hd x hx with h | h
+              · exact Or.inl h
+              · right; omega
+          · rcases hd x hx with h | h
+            · exact Or.inl h
+            · right; omega
+        have hgb : gb ≠ 0 → cb < gb ∧ (false = true ↔ gb ∈ rin.groups) := by
+          intro hne
+          rcases hdg.2 with h | h
+          · exact absurd h hne
+          · refine ⟨h.1, ⟨fun hf => (by cases hf), fun hin => ?_⟩⟩
+            exfalso
+            have hc := hfb.1
+            rw [hring] at hin
+            unfold markGroup at hin
+            split at hin
+            · rename_i hne'
+              simp only [List.mem_cons] at hin
+              rcases hin with hin | hin
+              · have := (hg (by simpa using hne')).1; omega
+              · rcases hd gb hin with h1 | h1 <;> omega
+            · rcases hd gb hin with h1 | h1 <;> omega
+        have hgb0 : gb = 0 → ((body.filter Node.isHandle).length ≤ if false = true then 0 else 1) := by
+          intro h0'
+          unfold drawGroups at hdr
+          split at hdr
+          · simp at hdr; omega
+          · simp; omega
+        have hin := ihb gb false k rin t hh hdisj1 hgb hgb0
+        have hp : rin.path = enterPath q r.path := rfl
+        rw [hp] at hin
+        cases hev : (evalNodesP body false (enterPath q r.path)).1 with
+        | some st =>
+          rw [hev] at hin
+          simpa [OutcomeP] using hin
+        | none =>
+          rw [hev] at hin
+          simp only [OutcomeP] at hin ⊢
+          obtain ⟨r2, he, hext, _⟩ := hin
+          refine ⟨r2, he, ⟨hext.1, ?_, ?_⟩, ?_⟩
+          · intro x hx
+            exact hext.2.1 x (by rw [hring]; exact markGroup_groups g r x hx)
+          · intro x hx
+            rcases hext.2.2 x hx with h | h | h
+            · rw [hring] at h
+              unfold markGroup at h
+              split at h
+              · rename_i hne
+                simp only [List.mem_cons] at h
+                rcases h with h | h
+                · exact Or.inr (Or.inr ⟨h, by simpa using hne⟩)
+                · exact Or.inl h
+              · exact Or.inl h
+            · exact Or.inr (Or.inl ⟨h.1, by omega⟩)
+            · right; left
+              rcases hdg.2 with h' | h'
+              · exact absurd h' h.2
+              · rw [h.1]; have := hfb.1; omega
+          · intro hne
+            have hmem : g ∈ r2.groups := by
+              apply hext.2.1
+              rw [hring]
+              unfold markGroup
+              simp [hne]
+            first | exact iff_of_true rfl hmem | exact iff_of_true trivial hmem | simpa using hmem
+theorem adaptNodes_semP : ∀ (ns : List Node) (c g : Nat) (taken : Bool) (k : K) (r : Req) (t : Trace),
+    nodesPlain ns = true →
+    Disj r.groups c (adaptNodes ns c).2 →
+    (g ≠ 0 → (adaptNodes ns c).2 < g ∧ (taken = true ↔ g ∈ r.groups)) →
+    (g = 0 → (ns.filter Node.isHandle).length ≤ if taken = true then 0 else 1) →
+    OutcomeP (evalNodesP ns taken r.path).1 (evalNodesP ns taken r.path).2
+      (runRoutes (setGroups g ns (adaptNodes ns c).1) k r t) k r t c (adaptNodes ns c).2 g (fun _ => True)
+  | [], c, g, taken, k, r, t, _, _, _, _ => by
+    simp only [adaptNodes, setGroups, runRoutes, evalNodesP, OutcomeP]
+    exact ⟨r, rfl, ExtP.refl _ _ _ _, trivial⟩
+  | n :: ns, c, g, taken, k, r, t, hh, hd, hg, h0 => by
+    simp only [nodesPlain, Bool.and_eq_true] at hh
+    have ihn := adaptNode_semP n c g taken
+    have hmn := adaptNode_mono n c
+    simp only [adaptNodes] at hd hg ⊢
+    generalize hn : adaptNode n c = r1 at hd hg ihn hmn ⊢
+    obtain ⟨rt, c1⟩ := r1
+    have ihs := adaptNodes_semP ns c1 g
+    have hms := adaptNodes_mono ns c1
+    generalize hns : adaptNodes ns c1 = r2 at hd hg ihs hms ⊢
+    obtain ⟨rts, c2⟩ := r2
+    simp only at hd hg ihn ihs hmn hms ⊢
+    simp only [setGroups, runRoutes, evalNodesP]
+    have hd1 : Disj r.groups c c1 := fun x hx => by
+      rcases hd x hx with h | h
+      · exact Or.inl h
+      · right; omega
+    have hg1 : g ≠ 0 → c1 < g ∧ (taken = true ↔ g ∈ r.groups) := fun hne => ⟨by have := (hg hne).1; omega, (hg hne).2⟩
+    have h01 : g = 0 → n.isHandle = true → taken = false := by
+      intro hz hnh
+      have := h0 hz
+      cases htk : taken with
+      | false => rfl
+      | true =>
+        rw [htk] at this
+        simp [List.filter, hnh] at this
+    have hnode := ihn (runRoutes (setGroups g ns rts) k) r t hh.1 hd1 hg1 h01
+    cases hev : evalNodeP n taken r.path with
+    | mk res rest =>
+      obtain ⟨tk, p1⟩ := rest
+      rw [hev] at hnode
+      simp only at hnode
+      cases res with
+      | some st => simpa [OutcomeP] using hnode
+      | none =>
+        simp only [OutcomeP] at hnode ⊢
+        obtain ⟨r', he, hext, htk⟩ := hnode
+        rw [he]
+        have hd2 : Disj r'.groups c1 c2 := by
+          intro x hx
+          rcases hext.2.2 x hx with h | h | h
+          · rcases hd x h with h' | h'
+            · left; omega
+            · exact Or.inr h'
+          · left; omega
+          · right; rw [h.1]; exact (hg h.2).1
+        have hg2 : g ≠ 0 → c2 < g ∧ (tk = true ↔ g ∈ r'.groups) := fun hne => ⟨(hg hne).1, htk hne⟩
+        have h02 : g = 0 → (ns.filter Node.isHandle).length ≤ if tk = true then 0 else 1 := by
+          intro hz
+          have hc := h0 hz
+          cases hnh : n.isHandle with
+          | false =>
+            cases n with
+            | respond st => simp [evalNodeP] at hev
+            | handle q b => simp [Node.isHandle] at hnh
+          | true =>
+            have htf := h01 hz hnh
+            rw [htf] at hc
+            simp only [List.filter, hnh, List.length_cons, Bool.false_eq_true, if_false] at hc
+            have : (ns.filter Node.isHandle).length = 0 := by omega
+            rw [this]; split <;> omega
+        have hrest := ihs tk k r' t hh.2 hd2 hg2 h02
+        rw [hext.1] at hrest
+        cases hev2 : (evalNodesP ns tk p1).1 with
+        | some st =>
+          rw [hev2] at hrest
+          simpa [OutcomeP] using hrest
+        | none =>
+          rw [hev2] at hrest
+          simp only [OutcomeP] at hrest ⊢
+          obtain ⟨r'', he2, hext2, _⟩ := hrest
+          refine ⟨r'', he2, ⟨hext2.1, fun x hx => hext2.2.1 x (hext.2.1 x hx), ?_⟩, trivial⟩
+          intro x hx
+          rcases hext2.2.2 x hx with h | h | h
+          · rcases hext.2.2 x h with h' | h' | h'
+            · exact Or.inl h'
+            · exact Or.inr (Or.inl ⟨h'.1, by omega⟩)
+            · exact Or.inr (Or.inr h')
+          · exact Or.inr (Or.inl ⟨by omega, h.2⟩)
+          · exact Or.inr (Or.inr h)
+end
+
+/-- the response the as-written reading prescribes -/
+def writtenStatus : Option Nat → Option Nat
+  | none => none
+  | some st => some (if st ≥ 1000 then writeStatus (some (st - 1000)) else st)
+
+/-- **a site of `handle` / `handle_path` blocks with `respond` and `error` means what it says**:
+    the adapted routes answer every request with exactly what the Caddyfile read as written
+    prescribes — of the blocks of one body only the first whose matcher matches is evaluated, at
+    every level; `handle_path` strips its prefix for everything that follows; an `error` ends
+    routing with its status (no error routes here). -/
+theorem site_behaves_as_written (ns : List Node) (req : Req) (hh : nodesPlain ns = true) :
+    serve (adaptSite ns) false [] req = ⟨[], writtenStatus (evalNodesP ns false req.path).1⟩ := by
+  unfold adaptSite serve
+  have hsem := adaptNodes_semP ns 0
+  generalize hn : adaptNodes ns 0 = res at hsem
+  obtain ⟨rs, c1⟩ := res
+  simp only at hsem ⊢
+  rw [consolidate_preserves_behaviour]
+  have hdg := drawGroups_bounds (ns.filter Node.isHandle).length c1
+  generalize hdr : drawGroups (ns.filter Node.isHandle).length c1 = dg at hdg ⊢
+  obtain ⟨g, c2⟩ := dg
+  simp only at hdg ⊢
+  have h := hsem g false emptyK { req with groups := [], ctxErr := none, replStatus := none } [] hh
+    (fun x hx => by simp at hx)
+    (fun hne => by
+      rcases hdg.2 with h | h
+      · exact absurd h hne
+      · exact ⟨h.1, ⟨fun hf => (by cases hf), fun hin => (by simp at hin)⟩⟩)
+    (fun hz => by
+      unfold drawGroups at hdr
+      split at hdr
+      · simp at hdr; omega
+      · simp; omega)
+  simp only at h
+  cases hev : (evalNodesP ns false req.path).1 with
+  | some st =>
+    rw [hev] at h
+    simp only [OutcomeP, Answered] at h
+    by_cases hge : st ≥ 1000
+    · simp only [hge, if_true] at h
+      obtain ⟨r'', he⟩ := h
+      simp [he, writtenStatus, hge]
+    · simp only [hge, if_false] at h
+      simp [h, writtenStatus, hge]
+  | none =>
+    rw [hev] at h
+    simp only [OutcomeP] at h
+    obtain ⟨r', he, _, _⟩ := h
+    simp [he, emptyK, writtenStatus]
+
+example : (evalNodesP [.handle (some 100) [.handle (some 3) [.respond 201], .respond 1404]] false 2).1 = some 201 ∧
+    (evalNodesP [.handle (some 100) [.handle (some 3) [.respond 201], .respond 1404]] false 5).1 = some 1404 := by decide
+
+
 /-! ### `handle` blocks: kernel-checked instances (the general statement is checked by the oracle) -/
 
 -- the group names the adapter draws (group2 inside, group7 outside; a lone handle gets none)
